@@ -24,17 +24,20 @@ from .seams import VROOT
 
 def grammar(rrel=None, params=()):
     ref = "[Def:QN]" if not rrel else f"[Def:QN|{rrel}]"
+    refc = "[Def:QNC]" if not rrel else f"[Def:QNC|{rrel}]"  # the same names written with '::' (another match rule)
     return f"""
 Model: imports*=Import items*=Item;
 Import: 'import' importURI=STRING;
-Item: Def | Box | Use | Wrap;
+Item: Def | Box | Use | Wrap | AltUse;
 Def: 'def' name=ID ('=' v=INT)? (tag=Tag)?;
 Box: 'box' name=ID '{{' items*=Item '}}';
-Use: 'use' name=ID ':' refs+={ref}[','] ('one' one={ref})? ('opt' opt={ref})?;
+AltUse: 'altuse' name=ID ':' alts+={refc}[','];
+Use: 'use' name=ID ':' refs+={ref}[','] ('one' one={ref})? ('opt' opt={ref})? ('alt' alt={refc})?;
 Wrap: inner=Inner (e?='end')?;
 Inner: 'w' name=ID;
 Tag: /#\\w+/;
 QN: ID('.'ID)*;
+QNC[split='::']: ID('::'ID)*;
 """
 
 
@@ -176,6 +179,9 @@ class World:
             return ref.text_override
         t = ref.target
         ref.name = t.qname() if self.qualified else t.name
+        if ref.attr == "alt":
+            ref.name = ref.name.replace(".", "::")
+            return ref.name
         if ref.spacing and "." in ref.name:
             return ref.name.replace(".", ref.spacing)
         return ref.name
@@ -244,12 +250,12 @@ class World:
                         T(",")
                     r.text = self.ref_text(r)
                     r.pos, b = T(r.text, "ref")
-                for attr in ("one", "opt"):
+                for attr in ("one", "opt", "alt"):
                     for r in e.refs:
                         if r.attr == attr:
                             T(attr)
                             r.text = self.ref_text(r)
-                            r.pos, b = T(r.text, "ref")
+                            r.pos, b = T(r.text, "ref" if attr != "alt" else "refc")
                 e.start, e.stop = a, b
             elif e.kind == "wrap":
                 a, _ = T("w")
@@ -283,7 +289,7 @@ def linecol(text, offset):
     return line, col
 
 
-def gen_world(tape, root, nfiles=1, qualified=False, max_refs=16, boxes=True, wraps=True,
+def gen_world(tape, root, nfiles=1, qualified=False, max_refs=16, boxes=True, wraps=True, alt_multipart=True,
               vals=False, layout=True, subdirs=False, min_defs=2, spaced_names=True):
     """Draw a world.  Names are globally unique (d<i>, b<i>, u<i>, w<i>)."""
     w = World()
@@ -393,6 +399,12 @@ def gen_world(tape, root, nfiles=1, qualified=False, max_refs=16, boxes=True, wr
                 if budget > 0 and tape.chance(1, 3, "has-" + attr):
                     r = Ref(u, attr, None, tape.pick(vis, attr + "-target"))
                     u.refs.append(r)
+                    budget -= 1
+            if budget > 0 and tape.chance(1, 4, "has-alt"):
+                # written with the '::' match rule; multi-part only where the provider honours the rule's split
+                cands = vis if (alt_multipart or not qualified) else [d for d in vis if d.parent is None]
+                if cands:
+                    u.refs.append(Ref(u, "alt", None, tape.pick(cands, "alt-target")))
                     budget -= 1
             w.uses.append(u)
     for p in paths:
